@@ -132,6 +132,9 @@ def _rexpr(prog, fn, e, inners):
             return "%s()" % nm
         if form == "compr":
             return "[%s for _verif_i in (0,)][0]" % val
+        if form == "localnamed" and "." in r:
+            # a local variable of the function is named like the last component of the dotted reference (`G1 = mod.G1`)
+            return "(((%s := %s) is None) + %s)" % (rn(g), r, val)
         if form == "shadowed" and r == rn(g):
             # another nested function has a PARAMETER of the same name (a local there), next to the real global reference
             nm = "_in%d" % len(inners)
@@ -151,7 +154,11 @@ def _rexpr(prog, fn, e, inners):
         inners.append("    def %s(t, q=%s):\n        return t * %s + q\n" % (nm, _lit(e["d"]), _lit(e["c"])))
         return "%s(%s)" % (nm, _rexpr(prog, fn, e["x"], inners))
     if t == "comp":
-        return "sum([t * %s for t in range(%s %% 4)])" % (_lit(e["c"]), _rexpr(prog, fn, e["x"], inners))
+        inner = _rexpr(prog, fn, e["x"], inners)
+        if ":=" in inner:
+            # (an assignment expression may not sit in the iterable of a comprehension: evaluate it first)
+            return "(lambda n_: sum([t * %s for t in range(n_ %% 4)]))(%s)" % (_lit(e["c"]), inner)
+        return "sum([t * %s for t in range(%s %% 4)])" % (_lit(e["c"]), inner)
     if t == "call":
         if e.get("form") == "attrchain":
             # the reference sits in the argument list of a call inside an attribute chain
@@ -169,6 +176,9 @@ def _rexpr(prog, fn, e, inners):
             return "%s(x - 1)" % nm
         if e.get("form") == "genexp":
             return "sum(%s(t) for t in (x - 1,))" % ref
+        if e.get("form") == "localnamed" and "." in ref:
+            # the result is kept in a local variable named like the function (`scale = rates.scale(x)`)
+            return "(%s := %s(x - 1))" % (ref.rsplit(".", 1)[1], ref)
         return "%s(x - 1)" % ref
     if t == "hidden":
         d = find(prog, e["f"])
@@ -735,9 +745,9 @@ def program_strategy(max_fns=6, two_modules=True, allow_hidden=True, allow_expli
                     continue
                 for e_ in exprs_of(d_):
                     if e_["e"] == "glob" and draw(st.integers(0, 2)) == 0:
-                        e_["form"] = draw(st.sampled_from(["lambda", "inner", "compr", "shadowed"]))
+                        e_["form"] = draw(st.sampled_from(["lambda", "inner", "compr", "shadowed", "localnamed", "localnamed"]))
                     elif e_["e"] == "call" and not e_.get("form") and draw(st.integers(0, 2)) == 0:
-                        e_["form"] = draw(st.sampled_from(["lambda", "inner", "genexp"]))
+                        e_["form"] = draw(st.sampled_from(["lambda", "inner", "genexp", "localnamed", "localnamed"]))
         if allow_rename and draw(st.integers(0, 2)) == 0:
             # unusual but legal names: a variable / helper / memoized callee called like a builtin, or with a very long name
             cands = [d["name"] for d in out["defs"] if d["k"] in ("var", "fn") and d["name"] != "f0" and not d.get("rname")
@@ -800,7 +810,7 @@ def features(prog):
         f.add("tuple-holding-list")
     if any(d["k"] == "var" and d["vtype"] == "mixset" for d in prog["defs"]):
         f.add("mixed-type-set")
-    if any(e.get("form") in ("lambda", "inner", "compr", "shadowed", "genexp") for d in fns(prog) for e in exprs_of(d) if e["e"] in ("glob", "call")):
+    if any(e.get("form") in ("lambda", "inner", "compr", "shadowed", "genexp", "localnamed") for d in fns(prog) for e in exprs_of(d) if e["e"] in ("glob", "call")):
         f.add("reference-from-nested-scope")
     if any(d["k"] in ("alias", "wrapper") for d in prog["defs"]):
         f.add("alias-or-wrapper")
